@@ -155,7 +155,7 @@ class ConfigParser():
         """
         Generic function to read the known data for any agent and goal of position
         """
-        known_data_conf = self.config['coordinator']['agents'][type_agent][type_data]['known_data']
+        known_data_conf = self.config['coordinator']['agents'][type_agent][type_data].get('known_data') or {}
         known_data = {}
         for ip, data in known_data_conf.items():
             try:
@@ -180,15 +180,16 @@ class ConfigParser():
         """
         Generic function to read the known blocks for any agent and goal of position
         """
-        known_blocks_conf = self.config["coordinator"]['agents'][type_agent][type_data]['known_blocks']
+        known_blocks_conf = self.config["coordinator"]['agents'][type_agent][type_data].get('known_blocks') or {}
         known_blocks = {}
         for target_host, block_list in known_blocks_conf.items():
             try:
                 target_host  = IP(target_host)
             except ValueError:
                 self.logger.error(f"Error when converting {target_host} to IP address object")
-            if isinstance(block_list,list):
-                known_blocks[target_host] = map(lambda x: IP(x), block_list)
+            if isinstance(block_list, (list, set, tuple, dict)):
+                # list (or YAML flow mapping/set) of blocked hosts
+                known_blocks[target_host] = {IP(x) for x in block_list}
             elif block_list == "all_attackers":
                 known_blocks[target_host] = block_list
             else:
@@ -199,21 +200,19 @@ class ConfigParser():
         """
         Generic function to read the known services for any agent and goal of position
         """
-        known_services_conf = self.config["coordinator"]['agents'][type_agent][type_data]['known_services']
+        known_services_conf = self.config["coordinator"]['agents'][type_agent][type_data].get('known_services') or {}
         known_services = {}
         for ip, data in known_services_conf.items():
             try:
                 # Check the host is a good ip
                 _ = netaddr.IPAddress(ip)
                 known_services_host = IP(ip)
-                if data.lower() == "random":
+                if isinstance(data, str) and data.lower() == "random":
                     known_services[known_services_host] = "random"
-                name = data[0]
-                type = data[1]
-                version = data[2]
-                is_local = data[3]
-
-                known_services[known_services_host] = Service(name, type, version, is_local)
+                    continue
+                # one service [name, type, version, is_local] or a list of such descriptions
+                descriptions = data if len(data) > 0 and isinstance(data[0], (list, tuple)) else [data]
+                known_services[known_services_host] = {Service(d[0], d[1], d[2], d[3]) for d in descriptions}
 
             except (ValueError, netaddr.AddrFormatError):
                 known_services = {}
@@ -223,7 +222,7 @@ class ConfigParser():
         """
         Generic function to read the known networks for any agent and goal of position
         """
-        known_networks_conf = self.config['coordinator']['agents'][type_agent][type_data]['known_networks']
+        known_networks_conf = self.config['coordinator']['agents'][type_agent][type_data].get('known_networks') or []
         known_networks = set()
         for net in known_networks_conf:
             try:
@@ -232,14 +231,14 @@ class ConfigParser():
                     host_part, net_part = net.split('/')
                     known_networks.add(Network(host_part, int(net_part)))
             except (ValueError, TypeError, netaddr.AddrFormatError):
-                self.logger('Configuration problem with the known networks')
+                self.logger.error('Configuration problem with the known networks')
         return known_networks
 
     def read_agents_known_hosts(self, type_agent: str, type_data: str) -> dict:
         """
         Generic function to read the known hosts for any agent and goal of position
         """
-        known_hosts_conf = self.config['coordinator']['agents'][type_agent][type_data]['known_hosts']
+        known_hosts_conf = self.config['coordinator']['agents'][type_agent][type_data].get('known_hosts') or []
         known_hosts = set()
         for ip in known_hosts_conf:
             try:
@@ -259,7 +258,7 @@ class ConfigParser():
         """
         Generic function to read the controlled hosts for any agent and goal of position
         """
-        controlled_hosts_conf = self.config['coordinator']['agents'][type_agent][type_data]['controlled_hosts']
+        controlled_hosts_conf = self.config['coordinator']['agents'][type_agent][type_data].get('controlled_hosts') or []
         controlled_hosts = set()
         for ip in controlled_hosts_conf:
             try:
